@@ -57,6 +57,7 @@ func runC03(t *testing.T, e *worlds.Env, tier string) (bool, any) {
 	var scripts []*worlds.UpScript
 	var addrs []string
 	faulty := false
+	dialFaultOn := false
 	tlsUp := false
 	wrappers := ""
 	clientEndName := ""
@@ -127,6 +128,7 @@ func runC03(t *testing.T, e *worlds.Env, tier string) (bool, any) {
 		// after the earlier peers were connected, and a retry within try_duration succeeds. Every
 		// connection of every attempt has to be closed.
 		dialFault := npeers > 1 && !tlsUp && tp.Prob(1, 4, "dial-fault")
+		dialFaultOn = dialFault
 		var tryDur time.Duration
 		if dialFault {
 			faulty = true
@@ -381,6 +383,21 @@ func runC03(t *testing.T, e *worlds.Env, tier string) (bool, any) {
 		for _, r := range recs {
 			if r.End != nil && !r.End.Peer().IsClosed() {
 				fail("upstream-not-closed", "the connection the handler opened to %s was never closed", r.Addr)
+			}
+		}
+		if faulty && !dialFaultOn && !model.Aborted && len(scripts) > 1 && cl.RecvEOF && (cl.Plan.End == worlds.EndHalfClose || cl.Plan.End == worlds.EndWaitEOF) {
+			// a fault of one peer must not cut what the other peers send to the client: a peer that
+			// did not fault itself, sent everything and half-closed gets all of it through
+			for i, sc := range scripts {
+				if sc.AbortAt >= 0 || sc.NoCloseWrite || sc.Mode == worlds.UpEcho || sc.Mode == worlds.UpSink || sc.SendLen == 0 {
+					continue
+				}
+				for _, r := range recs {
+					if r.Script == sc && r.SendErr == nil && r.Sent == sc.SendLen && r.SentAllAt > 0 && len(per[i]) != sc.SendLen && (sc.Mode != worlds.UpReplyAtEOF || r.SawEOF) {
+						fail("client-short", "upstream %s (which did not fault) sent %d bytes and half-closed; the client read EOF after only %d of them (another peer of the group had failed)", r.Addr, sc.SendLen, len(per[i]))
+						return
+					}
+				}
 			}
 		}
 		if faulty || model.Aborted {
